@@ -18,6 +18,7 @@ func TestC01(t *testing.T) {
 		wo.NearCap = true
 		wo.FeeCoin = true
 		h := newHistory(t, wo, sim.GeneralProfile(), sim.BlockOpts{MaxTxs: 6, Absences: true, Evidence: true, EvidenceAny: true, TimeJumps: true})
+		defer queryLoad(t, h, 0)()
 		c01Attach(t, h)
 		nb := rapid.IntRange(1, scale(22, 60)).Draw(t, "nBlocks")
 		for i := 0; i < nb; i++ {
